@@ -10,6 +10,18 @@ CHECKS = {
  "C12": dict(level="proof", technique="contract-based deductive verification (pyvc) with loop invariants (first-fit scan, sorted insert, merge), recursion variant; bounded native cross-check against an executable first-fit model",
    text="First-fit (no earlier chunk fits), growth only when nothing fits, capacity monotone, termination variant of the retry, free never raises (all implicit-exception obligations of free discharged), coalescing (pairwise non-touching free list after every operation and freed region contained in one chunk) are postconditions/invariants proved on the real code for all inputs. The free-total accounting clause and CPython stack depth are decided only by the bounded native part (stated in evidence); the recursion-depth defect is a recorded known finding.",
    note="As C04; additionally the accounting clause (sum of chunk sizes) is checked natively only (exhaustive small scope + model-based histories), not proved.", ref="5 C12, Appendix A"),
+   "C02": dict(level="proof", technique="contract-based deductive verification of the generator (pyvc symbolic execution of capi.py with template strings + mini-C semantics of the emitted text vs AddrSpec, loop invariant over the access path); bounded native cross-check (cffi compile)",
+   text="For every shape of path part (class, static/reference field, Ref, index of rank 1..3 with every static/dynamic dimension mask and static/dynamic items) the text emitted by the real gen_method_offset computes the documented layout's address expression for all field offsets, strides, header words, indices and base offsets (loop invariant, so for paths of any length), and get/getp/len/typeid/member return the load/address/product/word that AddrSpec prescribes: all obligations discharged. The Python accessors are compared with the compiled C accessors only natively (grammar slice, bounded).",
+   note="Trusted: mini-C reading of the emitted statement forms, AddrSpec as reading of the docs, ArrayLayout/StructLayout preconditions on path parts, gen_fun_kernel/gen_c_decl_from_kernel (declaration line, checked natively), C integer arithmetic treated as mathematical.", ref="5 C02, 4.6, Appendix C"),
+ "C07": dict(level="proof", technique="contract-based deductive verification (pyvc + mini-C): postcondition on the emitted setter (one store, at AddrSpec, of the leaf width, of the passed value); bounded native run comparing whole-buffer bytes",
+   text="Proved on the real generator: the emitted setter performs exactly one store, to AddrSpec(path), through a pointer to the leaf's C type whose size equals the leaf size, storing the passed value, and dereferences nothing else; the address arithmetic is the one proved under C02. 'Changes nothing else as observed from Python' and the in-bounds clause are cross-checked natively on the grammar slice (bytes outside the element unchanged). The sanitizer clause (signed overflow, misalignment) is not decided deductively in this version.",
+   note="As C02; additionally sibling disjointness and int64 range of intermediates are not proved here (bounded native only).", ref="5 C07"),
+ "C15": dict(level="proof", technique="contract-based deductive verification (pyvc): qualifier obligations on every pointer type emitted by capi.py; symbolic execution of specialize_source over abstract lines (result = replace-chain with target-dependent constants only); bounded host compile + token comparison",
+   text="Proved: every pointer type written by the generator (casts and declarations, all part shapes, all accessor kinds) is prefixed by the global-memory placeholder; specialize_source maps marker-free text to R(R(R(R(text,kern),fun),glmem),restrict) where only the four replacement constants depend on the target, and the constants are the target keywords the property names (OpenCL: __global). Hence the four specialisations of the accessor source differ only in qualifiers and compute the address proved under C02. Bounded: token identity after deleting qualifiers, host syntax check with keywords defined away, __global on every pointer of the OpenCL form, for the grammar slice.",
+   note="Trusted: string axioms for abstract lines, str.replace uninterpreted, mini-C; declaration lines (gen_c_decl_from_kernel, gen_typedef) are checked only by the bounded host compile and the OpenCL pointer scan.", ref="5 C15"),
+ "C16": dict(level="proof", technique="contract-based deductive verification (pyvc): loop invariants of both loops of specialize_source over abstract source lines, per line shape and target; SMT proof of the CUDA grid arithmetic taken from KernelCupy.__call__; bounded native runs (real CPU contexts, host simulation of GPU forms)",
+   text="Proved for all sources built from the annotation vocabulary (abstract list of lines of any length): per target, vectorize_over/end_vectorize expand to the loop/guard forms of the property, context-restricted lines are active exactly on the named targets, include lines for other contexts add nothing, all other text is unchanged, nested blocks raise; the CUDA grid covers [0,n) exactly once (empty for n=0) and the OpenCL global size is n. What a real OpenCL/CUDA runtime or OpenMP does is not applicable (no device); included files for the named target are covered by the bounded native part only.",
+   note="Trusted: string axioms, C semantics of the emitted for/if constructs, exact real arithmetic for n/B, the runtimes launching exactly the requested geometry.", ref="5 C16"),
 }
 NA = {}
 
